@@ -55,7 +55,74 @@ def observed_expected(target, text, model, nr, nrho, dr, drho, alg, meta):
   return parsed, O, E
 
 
-def api_case(target, elements, pairs, nr, nrho, route="class", rot=0, dip=None, quad=None, extra_vcs=None):
+class Mutable(object):
+  """A callable whose behaviour can be changed in place (same object identity):
+  models a potential whose parameters are adjusted between two writes."""
+
+  def __init__(self, name):
+    self.name = name
+    self.f = uf(name)
+
+  def __call__(self, x):
+    return self.f(x)
+
+
+class _CM(object):
+  def __init__(self, f):
+    self.f = f
+
+  def __call__(self, x):
+    return self.f(x)
+
+
+def replay_rewrite(target, model, nr, nrho, w):
+  """Concrete: one tabulation object written, its functions changed in place, written again; the second
+  file must hold the new functions."""
+  import io
+  from atsim.potentials import eam_tabulation as et
+  cutoff, cutoff_rho, dr, drho = EP._grid(w, nr, nrho)
+  names = EC.function_names(model)
+  f1 = EC.concrete_functions(names)
+  f2 = {n: (lambda x, g=g: 1.5 * g(x) + 0.25) for n, g in f1.items()}
+  wrappers = {}
+
+  def mk(name):
+    wrappers[name] = _CM(f1[name])
+    return wrappers[name]
+  eampots, pairpots, dip, quad = EC.build_objects(model, mk, EC.conc_meta)
+  cls = dict(setfl=et.SetFL_EAMTabulation, setfl_fs=et.SetFL_FS_EAMTabulation, DL_POLY_EAM=et.TABEAM_EAMTabulation,
+             DL_POLY_EAM_fs=et.TABEAM_FinnisSinclair_EAMTabulation).get(target)
+  if cls is not None:
+    tab = cls(pairpots, eampots, cutoff, nr, cutoff_rho, nrho)
+  else:
+    tab = et.ADP_EAMTabulation(pairpots, eampots, dip, quad, cutoff, nr, cutoff_rho, nrho)
+  style = EP.STYLE.get(target)
+  bad = []
+  for which, funcs in (("first", f1), ("second", f2)):
+    for n, wr in wrappers.items():
+      wr.f = funcs[n]
+    out = io.StringIO()
+    try:
+      tab.write(out)
+      alg = EC.float_alg(funcs)
+      if style:
+        parsed = eamtables.read_setfl(out.getvalue(), style)
+        O = EC.observed_setfl(parsed, model, nr, nrho, EC.conc_meta, style)
+        E = EC.expected_setfl(model, nr, nrho, dr, drho, alg, EC.conc_meta, style)
+        b = EC.compare_dicts(O, E, 1e-12, 1e-12)
+      else:
+        parsed = eamtables.read_tabeam(out.getvalue())
+        O = EC.observed_tabeam(parsed, model, nr, nrho)
+        E = EC.expected_tabeam(model, nr, nrho, dr, drho, alg)
+        b = EC.compare_dicts(O, E, 1e-9, 6e-7)
+    except Exception as e:  # noqa
+      b = ["%s: %s" % (type(e).__name__, e)]
+    bad += ["[%s write of the same object] %s" % (which, x) for x in b[:3]]
+  rec = dict(kind="eam_rewrite", target=target, model=model.describe(), nr=nr, nrho=nrho, cutoff=cutoff, cutoff_rho=cutoff_rho, mismatches=bad[:10])
+  return (bool(bad), "; ".join(bad[:3]) or "both writes agree with the functions in force at the time", rec)
+
+
+def api_case(target, elements, pairs, nr, nrho, route="class", rot=0, dip=None, quad=None, extra_vcs=None, rewrite=True):
   fs = target.endswith("_fs")
   model = EC.Model(elements, pairs, fs=fs, dip=dip, quad=quad, pair_list_rotation=rot)
   res = new_result("api %s %s nr=%d nrho=%d %s" % (target, model.describe(), nr, nrho, route))
@@ -64,17 +131,46 @@ def api_case(target, elements, pairs, nr, nrho, route="class", rot=0, dip=None, 
     cutoff, cutoff_rho = sym("cutoff"), sym("cutoff_rho")
     assume(cutoff > 0)
     assume(cutoff_rho > 0)
-    eampots, pairpots, d, q = EC.build_objects(model, lambda name: uf(name), EC.sym_meta)
+    made = []
+
+    def mk(name):
+      m = Mutable(name)
+      made.append(m)
+      return m
+    eampots, pairpots, d, q = EC.build_objects(model, mk, EC.sym_meta)
     out = Sink()
-    write_target(target, route, model, eampots, pairpots, d, q, cutoff, nr, cutoff_rho, nrho, out)
-    return out.getvalue(), len(out.writes)
+    tab = None
+    if route == "class" and rewrite:
+      # one tabulation object written twice: the functions are changed in place in between
+      from atsim.potentials import eam_tabulation as et
+      cls = dict(setfl=et.SetFL_EAMTabulation, setfl_fs=et.SetFL_FS_EAMTabulation, DL_POLY_EAM=et.TABEAM_EAMTabulation,
+                 DL_POLY_EAM_fs=et.TABEAM_FinnisSinclair_EAMTabulation).get(target)
+      if cls is not None:
+        tab = cls(pairpots, eampots, cutoff, nr, cutoff_rho, nrho)
+      elif target == "eam_adp":
+        tab = et.ADP_EAMTabulation(pairpots, eampots, d, q, cutoff, nr, cutoff_rho, nrho)
+    if tab is not None:
+      tab.write(out)
+    else:
+      write_target(target, route, model, eampots, pairpots, d, q, cutoff, nr, cutoff_rho, nrho, out)
+    second = None
+    if rewrite:
+      for m in made:
+        m.f = uf(m.name + "__2")
+      out2 = Sink()
+      if tab is not None:
+        tab.write(out2)
+      else:
+        write_target(target, route, model, eampots, pairpots, d, q, cutoff, nr, cutoff_rho, nrho, out2)
+      second = out2.getvalue()
+    return out.getvalue(), len(out.writes), second
 
   c, cr = z3.Real("cutoff"), z3.Real("cutoff_rho")
 
   def build(path, wrong=False):
     if path.exc is not None:
       raise Structural("exception", "%s: %s" % (type(path.exc).__name__, path.exc))
-    text, nwrites = path.value
+    text, nwrites, second = path.value
     dr = c / rv(nr - 1) * (2 if wrong else 1)
     drho = cr / rv(nrho - 1)
     try:
@@ -84,10 +180,24 @@ def api_case(target, elements, pairs, nr, nrho, route="class", rot=0, dip=None, 
     vcs = EC.vcs_from(path, O, E)
     if extra_vcs is not None:
       vcs.extend(extra_vcs(path, parsed, model, nr, nrho, dr, drho, wrong))
+    if second is not None and not wrong:
+      # the second write of the same object, after its functions were changed in place, tabulates the new functions
+      alg2 = EC.Alg(lambda name: z3.Function(name + "__2", core.R, core.R), rv)
+      try:
+        parsed2, O2, E2 = observed_expected(target, second, model, nr, nrho, dr, drho, alg2, EC.z3_meta)
+      except eamtables.FormatError as e:
+        raise Structural("format-second-write", "reader rejects the file written second: %s" % e)
+      for v2 in EC.vcs_from(path, O2, E2):
+        v2.name = "second-write/" + v2.name
+        v2.info = dict(v2.info or {}, key="second-write-" + (v2.info or {}).get("key", "slot"))
+        vcs.append(v2)
     return vcs
 
   def replay(v, w, path, structural):
-    return EP.replay_eam_api(target, model, nr, nrho, w, route)
+    first = EP.replay_eam_api(target, model, nr, nrho, w, route)
+    if first[0] or not rewrite or route != "class":
+      return first
+    return replay_rewrite(target, model, nr, nrho, w)
 
   shims.install()
   try:
